@@ -9,7 +9,7 @@ namespace GocoinV.Mempool
     conditions read nothing but `s.utxo` and `s.undo`) -/
 def AdmOp (u0 : UT) (ν : OutPoint → Nat) (s : State) : Op → Prop
   | .block h txs _ => ConnectSound u0 ν s (connectUtxo s h txs) txs
-  | .undo _ => ∀ s' txs, disconnectUtxo s = some (s', txs) → UndoCommitTxs u0 ν s s' txs
+  | .undo _ _ => ∀ s' txs, disconnectUtxo s = some (s', txs) → UndoCommitTxs u0 ν s s' txs
   | _ => True
 
 /-- every block / undo operation of the history is admissible in the state it is applied to -/
@@ -22,13 +22,13 @@ structure Full (K : Keys) (W : Tx → Prop) (u0 : UT) (ν : OutPoint → Nat) (s
   chain : ChainOK u0 ν s
   good : PGoodP K W u0 ν s
 
-theorem step_env_pool (K : Keys) (s : State) (op : Op) (hb : ∀ h txs mf, op ≠ .block h txs mf) (hu : ∀ mf, op ≠ .undo mf) :
+theorem step_env_pool (K : Keys) (s : State) (op : Op) (hb : ∀ h txs mf, op ≠ .block h txs mf) (hu : ∀ uh mf, op ≠ .undo uh mf) :
     s.undo = (step K s op).undo ∧ s.utxo = (step K s op).utxo ∧ (s.panicked = true → (step K s op).panicked = true) := by
   cases op with
   | submitNet t tr mf => have e := submitNet_env K mf s t tr; exact ⟨e.undo.symm, e.utxo.symm, e.sticky⟩
   | submitLocal t mf => have e := submitLocal_env K mf s t; exact ⟨e.undo.symm, e.utxo.symm, e.sticky⟩
   | block h txs mf => exact absurd rfl (hb h txs mf)
-  | undo mf => exact absurd rfl (hu mf)
+  | undo uh mf => exact absurd rfl (hu uh mf)
   | tip h => exact ⟨rfl, rfl, id⟩
   | expire old => have e := expire_env K s old; exact ⟨e.undo.symm, e.utxo.symm, e.sticky⟩
   | evict v =>
@@ -49,13 +49,13 @@ theorem step_full {K : Keys} {W : Tx → Prop} {rank : TxId → Nat} {u0 : UT} {
     | submitNet t tr mf => exact h.chain.of_env (submitNet_env K mf s t tr)
     | submitLocal t mf => exact h.chain.of_env (submitLocal_env K mf s t)
     | block hh txs mf => exact ha.chain.of_env (blockMined_env K mf _ txs)
-    | undo mf =>
+    | undo uh mf =>
       simp only [step]
       cases hd : disconnectUtxo s with
       | none => exact h.chain
       | some p =>
         obtain ⟨s', txs⟩ := p
-        exact (ha s' txs hd).chain.of_env (blockUndone_env K mf s' txs)
+        exact (ha s' txs hd).chain.of_env (blockUndoneAt_env K mf s' uh txs)
     | tip hh => exact h.chain.of_env ⟨rfl, rfl, id⟩
     | expire old => exact h.chain.of_env (expire_env K s old)
     | evict v =>
@@ -70,13 +70,13 @@ theorem step_full {K : Keys} {W : Tx → Prop} {rank : TxId → Nat} {u0 : UT} {
     | submitNet t tr mf => exact submitNet_good U mf s t tr h.chain h.good (hW t (by simp [Op.txs]))
     | submitLocal t mf => exact submitLocal_good U mf s t h.chain h.good (hW t (by simp [Op.txs]))
     | block hh txs mf => exact blockMined_good U mf s hh txs hW h.chain h.good h.inv ha
-    | undo mf =>
+    | undo uh mf =>
       simp only [step]
       cases hd : disconnectUtxo s with
       | none => exact h.good
       | some p =>
         obtain ⟨s', txs⟩ := p
-        exact blockUndone_good U mf s s' txs hd h.chain h.good h.inv (ha s' txs hd)
+        exact blockUndoneAt_good U mf s s' uh txs hd h.chain h.good h.inv (ha s' txs hd)
     | tip hh =>
       exact PGoodP.lift (s := s) (s' := { s with height := hh }) ⟨rfl, rfl, id⟩
         (fun g => g.frame (Frame.of_eq rfl rfl rfl rfl rfl rfl)) h.good
